@@ -3,6 +3,7 @@ CONSTANTS
   Endpoints = {"full", "mosnconfig", "allrouters", "allclusters", "alllisteners", "router", "cluster", "listener"}
   MaxOps = 0
   KeyForms = {"pem", "lead_ws", "preamble", "trailing", "crlf", "two_blocks", "path"}
+  KeySpells = {"exact", "title", "upper", "escaped", "camel"}
   ArrayLen = 3
   Defects = {}
 SPECIFICATION TraceSpec
